@@ -687,7 +687,7 @@ def _check_line_numbers(C: Collector, tier: str, seed: int) -> int:
     from tealer.teal.parse_teal import parse_teal
     from bounded import gen
     rnd = random.Random(seed * 7919 + 16)
-    n_rand, n_gen = (30, 60) if tier == "quick" else (200, 600)
+    n_rand, n_gen = (30, 60) if tier == "quick" else (2000, 6000)
     sources: List[List[str]] = []
     for _ in range(n_rand):
         body = ["#pragma version 8"] if rnd.random() < 0.8 else []
@@ -744,7 +744,7 @@ def _check_line_numbers(C: Collector, tier: str, seed: int) -> int:
 def _check_tokeniser(C: Collector, tier: str) -> int:
     from tealer.teal.instructions import parse_instruction as PI
     alphabet = 'a "\\/'
-    maxlen = 6 if tier == "quick" else 7
+    maxlen = 6 if tier == "quick" else 9
     n = 0
     for L in range(0, maxlen + 1):
         for tup in itertools.product(alphabet, repeat=L):
@@ -780,7 +780,7 @@ def lines_parse_and_print_back(tier: str = "quick", seed: int = 0, known: Any = 
     n_unknown = _check_unknown(C)
     n_files = _check_line_numbers(C, tier, seed)
     n_tok = _check_tokeniser(C, tier)
-    maxlen = 6 if tier == "quick" else 7
+    maxlen = 6 if tier == "quick" else 9
     summary = {
         "function": "parse_instruction.parse_line / _split_instruction_into_tokens / _parse_byte_arguments / parser_rules, "
                     "Instruction.__str__ of every class, parse_teal.first_pass (line numbers)",
